@@ -33,8 +33,8 @@ QuickTypes ==
   BaseSet
   \cup {TTup(<<B[1], B[2]>>), TTup(<<B[2], B[1]>>), TTup(<<B[3], B[4]>>), TTup(<<B[5], B[6]>>), TTup(<<B[6], B[3]>>),
         TTup(<<TPt, TPt>>), TTup(<<TCol, TI>>), TTup(<<TB, TPt>>)}
-  \cup {TArr(x) : x \in BaseSet}
-  \cup {TOpt(B[1]), TOpt(TPt), TOpt(TCol), TBag(B[2]), TBag(TPt)}
+  \cup {TTup(<<p[1], p[2]>>) : p \in Pairs}
+  \cup Depth1(BaseSet)
   \cup {TTup(<<B[1], TPt, TCol>>), TTup(<<TPt, B[2], B[3]>>),
         TArr(TTup(<<B[1], TPt>>)), TTup(<<TArr(TPt), TCol>>), TOpt(TArr(TCol)), TArr(TArr(TPt)), TArr(TOpt(TPt)),
         TTup(<<TTup(<<TPt, B[4]>>), TCol>>), TBag(TBag(TCol)), TArr(TBag(TPt)), TBag(TTup(<<TCol, B[5]>>))}
